@@ -583,6 +583,59 @@ def rule_json_fields(ctx: Ctx) -> None:
                 ctx.ok("json.fields", m, r, what=f"from_json reads '{key}' for every class that has it")
 
 
+def rule_json_wrapper_complete(ctx: Ctx) -> None:
+    """json.wrapper-complete: the exported op_list of a OneQubitGateWrapper names every operation of the wrapper, in order: the loop over
+    op.operations appends the name of each element and skips one only when it has no JSON name at all.  Any further filter (dropping
+    identities, say) changes the list the importer rebuilds the wrapper from — down to an empty list, which OneQubitGateWrapper rejects."""
+    repo = ctx.repo
+    DAGF = "graphiq/circuit/circuit_dag.py"
+    m = repo.module(DAGF)
+    tj = repo.anchor(DAGF, "CircuitDAG.to_json")
+    ctx.touch(m, tj)
+    loops_ = [l for l in ast.walk(tj) if isinstance(l, ast.For) and norm(l.iter).endswith(".operations")]
+    comps = [c for c in ast.walk(tj) if isinstance(c, (ast.ListComp,)) and norm(c.generators[0].iter).endswith(".operations")]
+    if not loops_ and not comps:
+        raise AnalysisError("to_json: the loop over a wrapper's operations was not found")
+    for lp in loops_:
+        gv = norm(lp.target)
+        names = {norm(a.targets[0]) for a in ast.walk(lp) if isinstance(a, ast.Assign) and isinstance(a.value, ast.Call)
+                 and call_attr(a.value) == "class_to_name_mapping" and [norm(x) for x in a.value.args] == [gv]}
+        apps = [c for c in calls_in(lp) if call_attr(c) == "append"]
+        if len(apps) != 1:
+            raise AnalysisError("to_json: expected one append per wrapper element")
+        conds = []
+        p_ = parent(apps[0])
+        while p_ is not None and p_ is not lp:
+            if isinstance(p_, ast.If):
+                conds.append(p_.test)
+            p_ = parent(p_)
+        extra = []
+        for t in conds:
+            parts = t.values if isinstance(t, ast.BoolOp) and isinstance(t.op, ast.And) else [t]
+            for part in parts:
+                if isinstance(part, ast.Name) and part.id in names:
+                    continue
+                if isinstance(part, ast.Compare) and len(part.ops) == 1 and isinstance(part.ops[0], (ast.IsNot, ast.NotEq)) and norm(part.left) in names \
+                        and isinstance(part.comparators[0], ast.Constant) and part.comparators[0].value in (None, ""):
+                    continue
+                extra.append(part)
+        skips = [x for x in ast.walk(lp) if isinstance(x, (ast.Continue, ast.Break))]
+        if extra or skips:
+            what = f"`{short(extra[0])}`" if extra else f"`{short(skips[0])}`"
+            ctx.fail("json.wrapper-complete", m, extra[0] if extra else skips[0],
+                     f"to_json leaves wrapper elements out of `op_list` under {what}: the importer rebuilds the wrapper from that list, so the "
+                     f"operations differ after a round trip, and a wrapper made only of the skipped kind exports `op_list: []`, which from_json "
+                     f"cannot construct", func="CircuitDAG.to_json", construct="to_json: wrapper op_list filtered")
+        else:
+            ctx.ok("json.wrapper-complete", m, lp, what="every named element of the wrapper is exported")
+    for c in comps:
+        if any(g.ifs for g in c.generators) and not all(isinstance(i, ast.Name) or "class_to_name_mapping" in norm(i) for g in c.generators for i in g.ifs):
+            ctx.fail("json.wrapper-complete", m, c, f"to_json filters the wrapper's operations in `{short(c, 80)}`", func="CircuitDAG.to_json",
+                     construct="to_json: wrapper op_list filtered")
+        else:
+            ctx.ok("json.wrapper-complete", m, c, what="every named element of the wrapper is exported")
+
+
 def rule_json_ctor(ctx: Ctx) -> None:
     """json.ctor: from_json creates each operation with `<class>()` and then sets its registers through the property setters, so every
     class the reader's name table can return must be constructible without arguments (all parameters of the __init__ it inherits have
@@ -630,6 +683,7 @@ def rule_json_ctor(ctx: Ctx) -> None:
 
 def run(ctx: Ctx) -> None:
     rule_json_ctor(ctx)
+    rule_json_wrapper_complete(ctx)
     rule_qasm_classical_register(ctx)
     rule_json_fields(ctx)
     from ..rules import order as _order
@@ -655,6 +709,7 @@ def run(ctx: Ctx) -> None:
 
 
 KNOCKOUTS = [
+    Knockout("json-wrapper-drops-identities", "graphiq/circuit/circuit_dag.py", sub_once("                    if name:\n                        op_list.append(name)", "                    if name and g is not ops.Identity:\n                        op_list.append(name)"), "json.wrapper-complete", "op_list filtered"),
     Knockout("classical-op-no-default-ctor", OPS, sub_once('        control=0,\n        control_type="e",\n        target=0,\n        target_type="p",\n        c_register=0,\n        noise=nm.NoNoise(),\n    ):\n', '        control,\n        control_type,\n        target,\n        target_type,\n        c_register=0,\n        noise=nm.NoNoise(),\n    ):\n'), "json.ctor", "not default-constructible", on_fixed_only=True),
     Knockout("measure-into-quantum-index", OQ, sub_nth('-> c{c_reg[0]}[0]; \\n"', '-> c{q_reg[0]}[0]; \\n"', 0), "qasm.creg", "measure target"),
     Knockout("export-node-order", "graphiq/circuit/circuit_dag.py", sub_once("        for op in self.sequence():\n            if isinstance(op, ops.InputOutputOperationBase):", "        for op in [self.dag.nodes[k]['op'] for k in self.dag.nodes]:\n            if isinstance(op, ops.InputOutputOperationBase):"), "order.topological", "node-creation order"),
